@@ -337,6 +337,9 @@ class Interp(ExprMixin):
                 v = self.eval(st.value.value, env, module) if st.value.value else NONE
                 self.list_append(env["__yield__"], v)
                 return
+            if isinstance(st.value, ast.YieldFrom):
+                self.list_extend(env["__yield__"], self.eval(st.value.value, env, module))
+                return
             self.eval(st.value, env, module)
         elif isinstance(st, ast.Assign):
             v = self.eval(st.value, env, module)
